@@ -1,8 +1,8 @@
 """Which suites, theorems and extracted data decide which property."""
-from . import dhcpwire, pool, dhcp, acl, dnsrate, dnscache
+from . import dhcpwire, pool, dhcp, acl, dnsrate, dnscache, dnsroute
 
 SUITES = {}
-for cls in [dhcpwire.DhcpRoundTrip, dhcpwire.DhcpParse, dhcpwire.Frame, dhcpwire.BroadcastFlag, pool.PoolHistory, dhcp.DhcpHistory, acl.AclSuite, acl.LeaseJson, dnsrate.BucketSuite, dnsrate.RateLimitSuite, dnscache.CacheSuite]:
+for cls in [dhcpwire.DhcpRoundTrip, dhcpwire.DhcpParse, dhcpwire.Frame, dhcpwire.BroadcastFlag, pool.PoolHistory, dhcp.DhcpHistory, acl.AclSuite, acl.LeaseJson, dnsrate.BucketSuite, dnsrate.RateLimitSuite, dnscache.CacheSuite, dnsroute.RouteSuite]:
     SUITES[cls.name] = cls()
 
 TRUSTED_BASE = [
@@ -105,5 +105,16 @@ PROPS = {
         assumptions=["two concurrent misses may both go upstream (allowed by the property)", "tokio Instant is monotone",
                      "only class IN queries reach the cache functions (tested in handle_query before the key is built)"],
         trusted=["HashMap<CacheKey,_> as a finite map"],
+    ),
+    "C15": dict(
+        suites=[("route", 2500, 40000)],
+        extracted=[],
+        rule="route tables of 1..6 routes x 0..4 suffixes (nested and sibling suffixes, the empty suffix, mixed case, forge-nxdomain / "
+             "forward with a distinct 127.0.0.N upstream per route / forward without a server), each table also in random "
+             "permutations of routes and of suffixes, x query names under/near the suffixes and their random re-casings, with and "
+             "without RD; loaded by the real YAML loader and run through the real router -> cache -> outquery chain against fake "
+             "upstreams in a private network namespace; non-trivial = forwarded or forged",
+        assumptions=["maximal matching suffixes claimed by routes with different actions are left open by the statement (any of them is accepted)"],
+        trusted=["the kernel's loopback UDP in a private network namespace; the fake upstream identifies itself in the answer"],
     ),
 }
